@@ -69,11 +69,15 @@ def controlStep (control : Nat) (needProps needDictReset : Bool) : ControlAction
 
 /-- `dict_write(dict, in, in_pos, in_size, &left)` on the abstract history: copies
     `min(in_size - in_pos, left, limit - pos)` bytes. Returns the number copied. -/
+def appendSlice (src : ByteArray) : Nat → Nat → ByteArray → ByteArray
+  | 0, _, h => h
+  | n + 1, off, h => appendSlice src n (off + 1) (h.push (src.data.getD off 0))
+
 def dictWrite (s : St) (left : Nat) : Nat × St :=
   let n := min (min (s.inp.size - s.inPos) left) s.dp.avail
   let h := s.hist
   let s := { s with hist := ByteArray.empty }
-  (n, { s with hist := s.inp.copySlice s.inPos h h.size n, inPos := s.inPos + n, dp := s.dp.advance n })
+  (n, { s with hist := appendSlice s.inp n s.inPos h, inPos := s.inPos + n, dp := s.dp.advance n })
 
 /-- `while (*in_pos < in_size || coder->sequence == SEQ_LZMA) switch (coder->sequence) …` -/
 def lzma2Loop : Nat → St → Ret × St
